@@ -13,10 +13,10 @@ import typing as T
 
 from ..core import Module, Repo, Undecided, norm, short, attr_chain
 from ..report import RuleCtx
-from ..consteval import fold_expr, fold_const, Regex, EnumMember, Opaque
+from ..consteval import fold_const, Regex, EnumMember, Opaque
 from .. import tables, rx
 from ..tables import Atom
-from .c01_sym import SymPath, sym_paths, is_call, show, subterms, private_helpers
+from .c01_sym import SymPath, sym_paths, is_call, show, subterms, private_helpers, module_helpers, fold_expr
 from .c01_parser import MPARSER, mro_cached, _summaries, semantic, ctor_binding, actual_name
 from . import c01_eval
 from .c01_eval import IB, EvalFn, views, abstract, fmt, EV, NONE, dispatch_arms, arm_method, rename
@@ -302,7 +302,20 @@ def effective_ops(repo: Repo, mod: Module, clsname: str) -> T.Dict[str, Impl]:
     return out
 
 
-def impl_paths(impl: Impl, handlers: bool = True) -> T.List[T.Tuple[str, T.Any, SymPath]]:
+def holder_helpers(repo: Repo, mod: Module, clsname: str) -> T.Dict[str, ast.FunctionDef]:
+    """Helper candidates of a holder class, found by role and not by name: the private undecorated/static methods of every class of its MRO (nearest
+    definition wins) and the private module-level functions of the modules these classes live in.  They are spliced into the operator bodies
+    before the paths are read, so `self._h(..)`, `raise self._h(..)`, `Class._h(..)` and `_h(..)` all read like the inlined code."""
+    out: T.Dict[str, ast.FunctionDef] = {}
+    for m, c in mro_cached(repo, mod, clsname):
+        for k, v in private_helpers(c).items():
+            out.setdefault(k, v)
+        for k, v in module_helpers(m).items():
+            out.setdefault(k, v)
+    return out
+
+
+def impl_paths(repo: Repo, impl: Impl, handlers: bool = True) -> T.List[T.Tuple[str, T.Any, SymPath]]:
     """[(outcome, result term with HELD/OTHER normalised, path)]"""
     fn = impl.fn
     if isinstance(fn, ast.Lambda):
@@ -311,7 +324,7 @@ def impl_paths(impl: Impl, handlers: bool = True) -> T.List[T.Tuple[str, T.Any, 
         sps = sym_paths(fn, body=body, handlers=handlers)           # type: ignore[arg-type]
     else:
         ps = [a.arg for a in fn.args.args]
-        sps = sym_paths(fn, handlers=handlers, helpers=private_helpers(impl.mod.cls(impl.owner), stop={'_op_div', '_throw_comp_exception'}), mod=impl.mod)
+        sps = sym_paths(fn, handlers=handlers, helpers=holder_helpers(repo, impl.mod, impl.owner), mod=impl.mod)
     if len(ps) != 2:
         raise Undecided(f'{impl.owner}: implementation of {impl.op} does not take (holder, other)')
     held_chain = f'{ps[0]}.range' if impl.owner == 'RangeHolder' else f'{ps[0]}.held_object'
@@ -340,13 +353,12 @@ def impl_paths(impl: Impl, handlers: bool = True) -> T.List[T.Tuple[str, T.Any, 
 def denotation(ctx: RuleCtx, impl: Impl, holder: str) -> T.List[T.Tuple[T.Any, SymPath]]:
     """Normal results (returned terms) of an operator implementation, raising paths checked to be InvalidArguments."""
     res = []
-    for oc, r, sp in impl_paths(impl):
-        if any(c[2] == 'SELF._throw_comp_exception' for c in sp.calls()):
-            continue        # never returns (C01.R3 checks that the helper always raises)
+    for oc, r, sp in impl_paths(ctx.repo, impl):
         if oc == 'raise':
             name = r[2].split('.')[-1] if is_call(r) else show(r)
-            if name == '_throw_comp_exception':
-                continue
+            if is_call(r) and not name[:1].isupper():
+                # `raise self._build_error(..)` through a helper that could not be spliced in: the exception class is not visible here
+                raise Undecided(f'{holder} {impl.op}: raises the result of {r[2]}(), a helper this rule could not read')
             if name != 'InvalidArguments':
                 ctx.violation(impl.mod, f'{impl.owner}.{getattr(impl.fn, "name", "<lambda>")}', f'{holder} {impl.op}: raises {name}',
                               f'the {impl.op} operator of {holder} can raise {name}; ill-typed or out-of-range operands must be InvalidArguments', sp.last_node)
@@ -396,7 +408,7 @@ def expected_shapes(opname: str, holder: str) -> T.List[T.Any]:
                 ('list', (('star', 'HELD'), ('star', 'OTHER'))), ('list', (('star', 'HELD'), 'OTHER')),   # the same written as a display with unpacking
                 ('list', (('star', 'HELD'), ('star', ('list', ('OTHER',)))))]
     if opname == 'DIV' and holder.endswith('StringHolder'):
-        return [('call', 'SELF._op_div', None, ('HELD', 'OTHER'), ())]                      # path join helper, checked separately
+        return [('call', 'os.path.join', None, ('HELD', 'OTHER'), ())]                      # judged by _path_join (separator normalisation allowed around it)
     return [('op', PYOP[opname], ('HELD', 'OTHER'))]
 
 
@@ -620,28 +632,27 @@ def r2(ctx: RuleCtx) -> None:
                     continue
                 seen_den.add(got)
                 n += 1
+                if opn == 'DIV' and holder.endswith('StringHolder'):
+                    verdict = _path_join(got)
+                    if verdict is None:
+                        raise Undecided(f'{holder} {opn}: the implementation computes {_fmt_den(got)}, a form this rule does not model')
+                    ctx.require(verdict, f'{holder} {opn}: path join of (held, other)', impl.mod, qn, f'{holder} {opn}: {_fmt_den(got)}',
+                                f'the `/` operator of {holder} computes {_fmt_den(got)}; it must join the held string (left) with the operand (right), in that order', sp.last_node)
+                    continue
                 if got not in want and not _understood(got):
                     raise Undecided(f'{holder} {opn}: the implementation computes {_fmt_den(got)}, a form this rule does not model')
                 ctx.require(got in want, f'{holder} {opn}: {_fmt_den(got)}', impl.mod, qn, f'{holder} {opn}: {_fmt_den(got)}',
                             f'the {opn} operator of {holder} computes {_fmt_den(got)}; the operator denotes {" or ".join(_fmt_den(w) for w in want)} '
                             f'(held value on the left; the container for in/not in)', sp.last_node)
     ctx.floor('operator implementations (holder x operator x distinct result)', n, 38)
-    # the string path-join helper joins (held, other) in that order
     sm = repo.module(HOLDERS['StringHolder'])
-    hf = sm.func('StringHolder._op_div')
-    ps = [a.arg for a in hf.args.args]
-    ok = False
-    for sp in sym_paths(hf):
-        joins = [t for t in subterms(sp.result) if is_call(t, 'os.path.join')]
-        ok = len(joins) == 1 and joins[0][4] == (('name', ps[0]), ('name', ps[1]))
-    ctx.require(ok, 'StringHolder._op_div joins (held, other) in that order', sm, 'StringHolder._op_div', 'path join operand order', '`/` on strings does not join held/other in that order', hf)
     # subclasses of StringHolder refine `/` through super()
     for sub in ('DependencyVariableStringHolder', 'OptionStringHolder'):
         ops = effective_ops(repo, sm, sub)
         impl = ops['DIV']
         if impl.owner == sub:
             okd = True
-            for oc, r, sp in impl_paths(impl):
+            for oc, r, sp in impl_paths(repo, impl):
                 if oc != 'return':
                     continue
                 sup = [t for t in subterms(r) if is_call(t) and t[2] == '.op_div' and is_call(t[3]) and t[3][2] == 'super' and t[4] == ('OTHER',)]
@@ -669,9 +680,33 @@ def _understood(t: T.Any) -> bool:
         return _understood(t[1])
     if k == 'dict':
         return all((kk == ('const', '**') or _understood(kk)) and _understood(v) for kk, v in t[1])
-    if k == 'call' and t[1] == 'SELF._op_div':
-        return all(_understood(x) for x in t[3])
     return False
+
+
+def _path_join(t: T.Any) -> T.Optional[bool]:
+    """Denotation of `/` on strings (after _strip_calls): exactly one os.path.join, possibly wrapped in string methods with constant arguments
+    (separator normalisation).  True: it joins (held, other); False: it joins the two operands in another order / drops one; None: another form."""
+    def walk(x: T.Any) -> T.Iterator[T.Any]:
+        if isinstance(x, tuple):
+            yield x
+            for y in x:
+                yield from walk(y)
+    joins = [x for x in walk(t) if len(x) == 5 and x[0] == 'call' and x[1] == 'os.path.join' and x[2] is None]
+    if len(joins) != 1 or joins[0][4]:
+        return None
+    core = joins[0]
+    r = t
+    while r != core:
+        if isinstance(r, tuple) and len(r) == 5 and r[0] == 'call' and str(r[1]).startswith('.') and r[2] is not None and all(isinstance(a, tuple) and a[0] == 'const' for a in r[3]) and not r[4]:
+            r = r[2]
+        else:
+            return None
+    args = core[3]
+    if args == ('HELD', 'OTHER'):
+        return True
+    if args and all(a in ('HELD', 'OTHER') for a in args) and len(args) <= 2:
+        return False
+    return None
 
 
 def _canon_member(t: T.Any) -> T.Any:
@@ -804,7 +839,7 @@ def r3(ctx: RuleCtx) -> None:
     # index operators convert IndexError / missing key to InvalidArguments (paths with handlers)
     for holder in ('StringHolder', 'ArrayHolder', 'RangeHolder', 'DictHolder'):
         impl = eff[holder]['INDEX']
-        outs = impl_paths(impl)
+        outs = impl_paths(repo, impl)
         raises = [(r, sp) for oc, r, sp in outs if oc == 'raise']
         rets = [(r, sp) for oc, r, sp in outs if oc == 'return']
         if holder == 'DictHolder' and any(any(a.kind == 'exc' and a.term.split('.')[-1] == 'KeyError' for a in sp.actions) for r, sp in raises):
@@ -838,12 +873,14 @@ def r3(ctx: RuleCtx) -> None:
         ok = ok and all(is_call(r) and r[2].split('.')[-1] == 'InvalidArguments' for r, sp in raises)
         ctx.require(ok, f'{holder} INDEX: {what}', impl.mod, f'{impl.owner}.{impl.fn.name}', f'{holder} INDEX error conversion',
                     f'{holder} indexing does not guarantee that {what}: an out-of-range / missing index would escape as a Python exception or a wrong error', impl.fn)
-    # exact-type equality of the base holder
+    # exact-type equality of the base holder: on the rows where the two types differ the outcome is InvalidArguments (raised in place, through a
+    # never-returning helper or built by a helper - all read alike after splicing), on the others the plain comparison
     bm = repo.module(BASEOBJ)
     for cls, subj in (('ObjectHolder', 'self.held_object'), ('InterpreterObject', 'self')):
+        helpers = holder_helpers(repo, bm, cls)
         for meth, opn, pyop in (('op_equals', 'EQUALS', 'Eq'), ('op_not_equals', 'NOT_EQUALS', 'NotEq')):
             fn = bm.func(f'{cls}.{meth}')
-            sps = sym_paths(fn)
+            sps = sym_paths(fn, helpers=helpers, mod=bm)
             other = fn.args.args[1].arg
             tt = ('op', 'IsNot', (_ty(subj), _ty(other)))
             tt2 = ('op', 'Is', (_ty(subj), _ty(other)))
@@ -857,20 +894,21 @@ def r3(ctx: RuleCtx) -> None:
                         same = not v
                     elif t == tt2:
                         same = v
-                throws = [c for c in sp.calls() if c[2] == 'self._throw_comp_exception']
                 if same is None:
                     good = False
                 elif same:
                     seen_ret = True
-                    good = good and not throws and sp.outcome == 'return' and _strip_calls(sp.result) == ('op', pyop, (('name', subj), ('name', other)))
+                    good = good and sp.outcome == 'return' and _strip_calls(sp.result) == ('op', pyop, (('name', subj), ('name', other)))
                 else:
                     seen_err = True
-                    good = good and bool(throws) and throws[0][1] == min(c[1] for c in sp.calls() if c[2].startswith('self.'))
-            ctx.require(good and seen_ret and seen_err, f'{cls}.{meth}: type({subj}) is type(other) exactly, else an error; then {subj} {pyop} other', bm, f'{cls}.{meth}', f'{cls}.{meth} exact type test',
-                        f'{cls}.{meth} no longer compares only after an exact `type(..) is type(..)` test', fn)
-    tfn = bm.func('InterpreterObject._throw_comp_exception')
-    ok = all(sp.outcome == 'raise' and is_call(sp.result) and sp.result[2] == 'InvalidArguments' for sp in sym_paths(tfn))
-    ctx.require(ok, '_throw_comp_exception always raises InvalidArguments', bm, 'InterpreterObject._throw_comp_exception', '_throw_comp_exception', 'the mixed-type comparison helper can return', tfn)
+                    name = sp.result[2].split('.')[-1] if sp.outcome == 'raise' and is_call(sp.result) else None
+                    if name != 'InvalidArguments':
+                        unread = sorted({c[2] for c in sp.calls() if c[3] is None and c[2].split('.')[0] in ('self', 'cls') and c[2].split('.')[-1].startswith('_')})
+                        if unread or (name is not None and not name[:1].isupper()):
+                            raise Undecided(f'{cls}.{meth}: the mixed-type row goes through {unread or name}, which this rule could not read')
+                        good = False
+            ctx.require(good and seen_ret and seen_err, f'{cls}.{meth}: type({subj}) is type(other) exactly, else InvalidArguments; then {subj} {pyop} other', bm, f'{cls}.{meth}', f'{cls}.{meth} exact type test',
+                        f'{cls}.{meth} no longer compares only after an exact `type(..) is type(..)` test whose failure raises InvalidArguments', fn)
     # operator_call: the guard of a trivial operator is enforced, unsupported operators are errors
     check_operator_call(ctx, bm)
     # typed_operator wrapper
